@@ -124,6 +124,10 @@ func GenRace(r *Rng) RaceSpec {
 	ids := r.Perm(30)
 	rs := RaceSpec{}
 	addr := 0xc000000000 + uint64(r.Intn(1<<24))
+	if r.Chance(1, 6) {
+		// the whole 64-bit range is legal: small addresses, the upper half, the last word
+		addr = []uint64{0x10, 0x7fffffffffffffff, 0x8000000000000000, 0xffffffffffffff00, 0xffffffffffffffff - 8, 0xc0de00000000dead}[r.Intn(6)]
+	}
 	for i := 0; i < nops; i++ {
 		a := addr
 		if r.Chance(1, 3) {
